@@ -79,6 +79,7 @@ structure Gw where
   loaded   : List Nat    -- ids
   lastSync : Nat
   known    : List Nat    -- the samples that were in the bucket at the last sync
+  stale    : List Nat := []  -- loaded earlier, gone from the view of the sync in progress, not dropped yet
 deriving Repr, DecidableEq
 
 structure State where
@@ -98,6 +99,8 @@ inductive Action where
   | tick (d : Nat)                     -- time passes
   | failedUpload                       -- a compaction whose result never became visible (upload failed before
                                        -- meta.json): a ULID is used up, the bucket shows no new block
+  | syncLoad (g : Nat)                 -- first half of BucketStore.SyncBlocks: fetch the view, load its new blocks
+  | syncDrop (g : Nat)                 -- second half: drop the loaded blocks that are not in that view
   | readFault                          -- a read of meta.json / a marker fails during a sync: at most the
                                        -- iteration is aborted, the bucket is not touched (C33: an incomplete view
                                        -- never leads to a write)
@@ -166,6 +169,17 @@ def step (P : Params) (s : State) : Action → Option State
     if s.gws.all (gwOk P (s.now + d)) then some { s with now := s.now + d } else none
   | .failedUpload => some { s with nextId := s.nextId + 1 }
   | .readFault => some s
+  | .syncLoad g =>
+    match s.gws[g]? with
+    | some gw =>
+      let view := (filterChain P.levelTie P.ignoreDelay s.now s.blocks).map (·.id)
+      some { s with gws := s.gws.set g { loaded := view, lastSync := s.now, known := allSources s.blocks,
+                                         stale := (gw.loaded ++ gw.stale).filter (fun i => !view.contains i) } }
+    | none => none
+  | .syncDrop g =>
+    match s.gws[g]? with
+    | some gw => some { s with gws := s.gws.set g { gw with stale := [] } }
+    | none => none
 
 def run (P : Params) : State → List Action → Option State
   | s, [] => some s
@@ -179,6 +193,26 @@ def init (k : Nat) : State :=
 
 /-- gateway `g` serves sample `x`: one of its loaded blocks holds it and is still in the bucket -/
 def serves (s : State) (g : Gw) (x : Nat) : Bool :=
-  s.blocks.any (fun b => g.loaded.contains b.id && b.sources.contains x)
+  s.blocks.any (fun b => (g.loaded.contains b.id || g.stale.contains b.id) && b.sources.contains x)
+
+/-- NOT a step of the model — the order a careless gateway could use: drop what left the view before
+    the new blocks are loaded (state in the middle of such a sync) -/
+def dropOutdatedFirst (P : Params) (s : State) (g : Nat) : State :=
+  match s.gws[g]? with
+  | some gw =>
+    let view := (filterChain P.levelTie P.ignoreDelay s.now s.blocks).map (·.id)
+    { s with gws := s.gws.set g { gw with loaded := gw.loaded.filter (fun i => view.contains i) } }
+  | none => s
+
+/-- NOT a step of the model — a sync in which the blocks `failed` of the view could not be loaded
+    (index-header download failed, …) and the outdated blocks were dropped all the same -/
+def syncWithFailedLoads (P : Params) (s : State) (g : Nat) (failed : List Nat) : State :=
+  match s.gws[g]? with
+  | some gw =>
+    let view := (filterChain P.levelTie P.ignoreDelay s.now s.blocks).map (·.id)
+    let gw' : Gw := { loaded := view.filter (fun i => gw.loaded.contains i || !failed.contains i),
+                      lastSync := s.now, known := allSources s.blocks, stale := gw.stale }
+    { s with gws := s.gws.set g gw' }
+  | none => s
 
 end Thanos.CompactProto
